@@ -51,7 +51,8 @@ def check_session(ctx, label, img0, writes, final, meta, how, rep):
     br = boot_ranges(v, img0)
     n = len(writes)
     for i, (pos, data) in enumerate(writes):
-        cur[pos:pos + len(data)] = data
+        if 0 <= pos and pos + len(data) <= len(cur):
+            cur[pos:pos + len(data)] = data     # (a write that misses the volume — C08's finding — marks nothing IN the volume: C11-m8)
         if i == n - 1:
             break
         if marks(cur, v) and (i < 6 or i % 16 == 0 or i >= n - 5):
@@ -99,7 +100,8 @@ def run(ctx):
             # sessions that end with un-flushed work: remove / wipe as last ops, and a handle left open
             tail = rng.choice([[], [["remove", "/A.TXT"]], [["create", "/README", 1]], [["open", "left", "/left.bin", "w"], ["write", "left", "00" * 700]]])
             ops = ops + tail + [["closefs"]]
-            case = history.Case(label, img0, ops, mount=dict(encoding="ibm437"), meta=meta)
+            # (some sessions on a volume at a non-zero offset of its device: the marks are marks of the VOLUME)
+            case = history.Case(label, img0, ops, mount=dict(encoding="ibm437", **({"offset": 4096} if i % 3 == 2 else {})), meta=meta)
             rep = dict(case.replay(), initial_marking=how)
             r = history.run_case(ctx, case, oracles=("internal",), model=m)
             ir = r["impl"]
